@@ -6,6 +6,7 @@ mod c07;
 mod c10;
 mod c11;
 mod c13;
+mod c14;
 mod c16;
 mod c17;
 mod c18;
@@ -31,6 +32,7 @@ fn lookup(id: &str) -> Option<(RunFn, CheckFn)> {
         "C10" => (c10::run, c10::check_record),
         "C11" => (c11::run, c11::check_record),
         "C13" => (c13::run, c13::check_record),
+        "C14" => (c14::run, c14::check_record),
         "C16" => (c16::run, c16::check_record),
         "C17" => (c17::run, c17::check_record),
         "C18" => (c18::run, c18::check_record),
